@@ -613,6 +613,7 @@ def main():
         ck.notes["rule_table"] = "tools/c01_rules.py not present"
     model = extract_model(PID, "C01Extract.v", "c01_driver.ml")
     os.makedirs(TMP, exist_ok=True)
+    rule_body_mismatch = None
     # second tie of the rewrite table: the BODY of every specialisation (typedefs + create), translated from the header and
     # interpreted on instances of every rule (both orientations, non-square, pairwise different indices), must build the
     # same term as the extracted C01Opt.v functions (driver command O)
@@ -624,12 +625,7 @@ def main():
                   rb["ok"], "mismatching instances: %d%s; untranslatable: %s; rules without instance: %s" % (
                       nmis, (" first: %s on %s: C++ body gives %s, model gives %s" % (first["rule"], first["instance"], first["translated_from_cxx"], first["extracted_model"])) if first else "",
                       rb["untranslatable"][:3], rb["not_exercised"][:5]))
-        seen = set()
-        for mm in rb["mismatches"]:
-            if mm and mm["rule"] not in seen:
-                seen.add(mm["rule"])
-                ck.violation("rule-body:" + mm["rule"], mm, "rewrite rule %s: the body in the header builds %s for %s, the proved model rule builds %s" % (
-                    mm["rule"], mm["translated_from_cxx"], mm["instance"], mm["extracted_model"]), no_input=True)
+        rule_body_mismatch = (first, [m for m in rb["mismatches"] if m]) if first else None      # reported after the streams (below)
         ck.notes["rule_bodies"] = {k: rb[k] for k in ("rules", "instances", "skipped_precondition", "orientation_index_functions") if k in rb}
         ck.notes["rule_bodies"]["least_exercised_rule_instances"] = min(rb.get("fired", {"-": 0}).values())
     except Exception as ex:        # the translator itself must not take the check down silently
@@ -715,6 +711,12 @@ def main():
     # extracted model (C01SparseExec.v) vs harness/c01_sparse.cpp, values and stored index structure compared exactly
     nsp = SP.stream(ck, random.Random(ck.rng.getrandbits(48)), 3000 if thorough else 600)
     nev += nsp
+    if rule_body_mismatch:
+        # the smallest instance on which the rule body of the header and the proved rule differ (a disagreement of the two
+        # descriptions of the rule, not by itself a failing program: the streams above supply that)
+        mm, allmm = rule_body_mismatch
+        ck.violation("rule-body:" + mm["rule"], {"first": mm, "all": allmm}, "rewrite rule %s: the body in the header builds %s for %s, the proved model rule builds %s" % (
+            mm["rule"], mm["translated_from_cxx"], mm["instance"], mm["extracted_model"]), no_input=True)
     # corpus
     cdir = os.path.join(ROOT, "corpus", PID)
     if os.path.isdir(cdir):
